@@ -347,3 +347,11 @@ THOROUGH_REPS = {
 }
 for _p, _r in THOROUGH_REPS.items():
     PLANS[_p].setdefault("reps", {})["thorough"] = _r
+
+
+_SCALE = (" Scale cases (rel lane): structures over 1.3e8 .. 3.0e8 symbols/bits built from a streaming periodic input whose rank/select have "
+          "closed forms (no O(n) model): more than 2^16 superblocks, positions and counts above 2^27/2^28, probed around those thresholds, at the "
+          "ends and at random positions.")
+for _p in ("C05", "C06", "C07"):
+    PLANS[_p]["rule"] += _SCALE
+PLANS["C01"]["rule"] += _SCALE + " (C01: thorough tier only, a 2-level QWT256Pfs over 1.3e8 symbols.)"
